@@ -99,6 +99,15 @@ CLAIMED = {
              'evaluator; every ill-formed token sequence must be rejected. Held on the executions observed only.',
         note='Trusted: the 150-line reference evaluator/recogniser in vf/model/expr.py; domain restrictions listed in '
              'evidence.assumptions are DONT_CARE.'),
+    'C17': dict(
+        category='exploration', design_ref='DESIGN.md §3 C17',
+        technique='runtime monitoring: metamorphic file-splitting oracle (split == unsplit == layout model) plus zone/scope '
+                  'continuation model and negative include cases on real CLI runs; audit-hook probe of include opens',
+        text='Structured programs are split at admissible line boundaries into 2..5 files (nested includes, 1..3 include '
+             'directories) and must assemble to the image of the unsplit program; includers inside a named zone / local region '
+             'must continue there after an include that itself starts in GLOBAL under a fresh file scope; a file included twice '
+             '(directly, transitively, itself), a missing file and a name found in two search directories must be rejected.',
+        note='Trusted: the admissibility rules of the split (vf/oracles/c17.py), vf/model/layout.py.'),
 }
 
 NOT_APPLICABLE = {}
